@@ -7,7 +7,7 @@ CONSTANTS
   SrcVals = {"S0", "S1"}
   UserActs = {"edit", "build", "clean", "rules", "tamper", "deltarget"}
   Goals = {"", "d", "e"}
-  MaxUser = 10
+  MaxUser = 11
   FreeFrom = 99
   Script <- mcScriptBoth
 INIT GInit
